@@ -99,6 +99,19 @@ CLAIMED["C04"] = (
     "TLC/SANY; stub model for string/style/rich-text lookups; payload values sampled from C01's domains; quick tier enumerates flag bits 0..14 "
     "(2^15 words), thorough all 2^21",
     "DESIGN.md §4 C04")
+CLAIMED["C01"] = (
+    "TLC model checking of Decimal.tla (digit-sequence values, decimal128 denotation) ; per-cell write/save/reopen/read events over every value "
+    "class of the quantifier judged by TLC (Trace_Decimal); TLC-generated write/save/open behaviours of Workbook.tla replayed under tile- and "
+    "column-block boundary profiles and validated by Trace_Workbook",
+    "Values are compared as digit sequences / code points / integer fields, never as floats: Trace_Decimal accepts an event only if the reopened "
+    "cell has the corresponding class and Norm(read) = Norm(written); the relation itself (Norm, decimal128 denotation, reference encoder) is model "
+    "checked on all values of <= 3-4 digits, and its lossy-scaling mutant is refuted. Sweeps write 3*10^4 (quick) / 4*10^5 (thorough) values of "
+    "every class into tables of 1, 8, 40 and 300 columns spanning several 256-row tiles, save, reopen and log one event per cell incl. the stored "
+    "decimal128 payload (Level B). The growth/position clause is covered by Workbook behaviours (writes outside the bounds, save, open) replayed "
+    "with row/column offsets 254/255/510/598 and 254/255/258/300, and by single writes at MAX_ROW_COUNT-1 / MAX_COL_COUNT-1 (thorough).",
+    "TLC/SANY; repr(float) shortest round-trip digits, Decimal, int.from_bytes are trusted for turning floats and payload bytes into digit "
+    "sequences; long texts compared by length + SHA-256",
+    "DESIGN.md §4 C01")
 NOT_YET = "check not built yet in this round (planned: see DESIGN.md section for this property)"
 NA = {}
 
